@@ -47,7 +47,7 @@ def join(a, b):
         return RAW
     if UNKNOWN in (a, b):
         return UNKNOWN
-    safe_text = {CONST, FRAG, INT}
+    safe_text = {CONST, FRAG, INT, JSON}
     if a in safe_text and b in safe_text:
         return FRAG if FRAG in (a, b) or CONST in (a, b) else INT
     # two different marks: keep neither (e.g. HEX ⊔ SQD)
@@ -379,6 +379,8 @@ class Interp:
                 e = elem(items) if isinstance(items, tuple) else items
                 if sep in (CONST, FRAG) and e in (CONST, FRAG, INT):
                     return FRAG
+                if self.sink == "json" and isinstance(recv, ast.Constant) and recv.value == "," and e in (JSON, INT, FRAG, CONST):
+                    return FRAG  # comma-separated JSON values: the body of an array
                 if e in (HEX, SQD, REPR, JSON) and isinstance(recv, ast.Constant) and recv.value == "":
                     return e
                 return RAW if e == RAW else UNKNOWN
